@@ -294,6 +294,46 @@ func isNilType(t types.Type) bool {
 	return ok && b.Kind() == types.UntypedNil
 }
 
+// addrOf computes the address (heap key prefix and owner object) of a field selector without loading it.
+func (e *specEnv) addrOf(n ast.Expr) Val {
+	for {
+		if p, ok := n.(*ast.ParenExpr); ok {
+			n = p.X
+			continue
+		}
+		break
+	}
+	sel, ok := n.(*ast.SelectorExpr)
+	if !ok {
+		e.fail(n, "held() needs a field selector")
+	}
+	s, ok := e.info.Selections[sel]
+	if !ok || s.Kind() != types.FieldVal {
+		e.fail(n, "held() needs a field selector")
+	}
+	v := e.expr(sel.X)
+	t := e.typeOf(sel.X)
+	path := s.Index()
+	for i, idx := range path {
+		pt, ok := t.Underlying().(*types.Pointer)
+		if !ok || v.K != VPtr {
+			e.fail(n, "held(): base is not a pointer")
+		}
+		f := pt.Elem().Underlying().(*types.Struct).Field(idx)
+		addr := Val{K: VPtr, Prefix: v.Prefix + "." + f.Name(), Ref: v.Ref, Idx: v.Idx}
+		if i == len(path)-1 {
+			return addr
+		}
+		if _, isStruct := f.Type().Underlying().(*types.Struct); isStruct {
+			v, t = addr, types.NewPointer(f.Type())
+		} else {
+			v, t = e.x.load(e.cur, addr, f.Type()), f.Type()
+		}
+	}
+	e.fail(n, "held(): empty path")
+	return Val{}
+}
+
 // selectPath follows a field selection path (with implicit dereferences) from value v of type t.
 func (e *specEnv) selectPath(n ast.Node, v Val, t types.Type, path []int) Val {
 	interior := false
@@ -430,6 +470,9 @@ func (e *specEnv) callExpr(c *ast.CallExpr) Val {
 				// typeIs(x, (*T)(nil)) : dynamic type of interface x equals static type of second argument
 				v := e.expr(c.Args[0])
 				return scalar(Eq(v.Fs[0].T, e.x.typeTag(e.typeOf(c.Args[1]))), types.Typ[types.Bool])
+			case "held":
+				p := e.addrOf(c.Args[0])
+				return scalar(Select(e.cur.arr("X:held", SBool), mutexID(p)), types.Typ[types.Bool])
 			case "sends":
 				ch := e.expr(c.Args[0])
 				return scalar(Select(e.cur.arr("X:sends", BV(64)), ch.T), types.Typ[types.Int])
